@@ -229,9 +229,12 @@ def steps_(levels, dim, maxlen):
         sto = st.tuples(points(levels, dim), st.one_of(st.none(), st.none(), st.integers(0, 6))).map(
             lambda t: ['store', t[0], t[1]])
         one = st.one_of(it, sto)
-    else:
-        one = it
-    return st.lists(one, min_size=0, max_size=maxlen)
+        # the canonical augmented-Lagrangian loop: store the multiplier estimate, then advance
+        alm = st.lists(points(levels, dim), min_size=1, max_size=3).map(
+            lambda ps: [op for p in ps for op in (['store', p, None], ['iter', None])])
+        return st.one_of(st.lists(one, min_size=0, max_size=maxlen),
+                         st.tuples(alm, st.lists(one, min_size=0, max_size=2)).map(lambda t: t[0] + t[1]))
+    return st.lists(it, min_size=0, max_size=maxlen)
 
 
 @st.composite
@@ -507,8 +510,6 @@ class Stack(object):
                 continue
             if pt == 'barrier_inequality' and pf > 0:
                 want = INF
-            ctx.expect(near(got, want, abs(inner) + sc), 'C15.formula',
-                       lambda: dict(info(), expected=want, penalty=term))
             if pt != 'barrier_inequality' and multzero:
                 if is_satisfied(pt, pf):
                     ctx.expect(got == inner, 'C15.feasible_exact', lambda: dict(info(), expected=inner))
@@ -517,6 +518,8 @@ class Stack(object):
                         ctx.expect(got > inner, 'C15.violated_positive', lambda: dict(info(), penalty=term))
                     else:
                         ctx.exclude('violated but penalty below half an ulp of the decorated value')
+            ctx.expect(near(got, want, abs(inner) + sc), 'C15.formula',
+                       lambda: dict(info(), expected=want, penalty=term))
         if want_total != want_total:
             ctx.exclude('undefined: end-to-end sum contains inf-inf or 0*inf')
         else:
@@ -597,6 +600,14 @@ def machine_factory(tier, Base):
                 return
             self.do(['store', self._pt(data), i])
 
+        @rule(data=st.data())
+        def alm(self, data):
+            # the canonical augmented-Lagrangian step: store the multiplier estimate, then advance
+            if self.case is None or not any(lv['ptype'] in LAGRANGE for lv in self.case['levels']):
+                return
+            self.do(['store', self._pt(data), None])
+            self.do(['iter', None])
+
         @rule()
         def clr(self):
             self.do(['clear'])
@@ -618,11 +629,11 @@ def machine_factory(tier, Base):
 
 TESTS = [
     Test('formula', run_eval, strategy=lambda tier: eval_cases(1, 1),
-         examples={'quick': 16000, 'thorough': 400000}),
+         examples={'quick': 12000, 'thorough': 400000}),
     Test('stack', run_eval, strategy=lambda tier: eval_cases(2, 3),
-         examples={'quick': 8000, 'thorough': 200000}),
+         examples={'quick': 6000, 'thorough': 200000}),
     Test('machine', fold_run(OPEN, APPLY, CLOSE), machine=machine_factory,
-         examples={'quick': 3200, 'thorough': 80000}, steps={'quick': 14, 'thorough': 30}),
+         examples={'quick': 2400, 'thorough': 80000}, steps={'quick': 14, 'thorough': 30}),
 ]
 
 KNOWN = {}
